@@ -221,7 +221,20 @@ func RunTasks(ctx *common.Ctx, bin string, tasks []Task, par int, stopOnFound bo
 			var errb bytes.Buffer
 			cmd.Stderr = &errb
 			cmd.Stdout = &errb
-			err := cmd.Run()
+			// the sub-process honours its budget itself; the watchdog only catches a real (uninstrumented)
+			// blocking operation that freezes the cooperative scheduler
+			limit := time.Duration(t.Budget*float64(time.Second)) + 3*time.Minute
+			err := cmd.Start()
+			if err == nil {
+				doneCh := make(chan error, 1)
+				go func() { doneCh <- cmd.Wait() }()
+				select {
+				case err = <-doneCh:
+				case <-time.After(limit):
+					_ = cmd.Process.Kill()
+					err = fmt.Errorf("sub-process did not finish within %s (killed): an operation outside the instrumented set may block the controlled scheduler", limit)
+				}
+			}
 			var r Result
 			rb, rerr := os.ReadFile(rf)
 			if rerr != nil || json.Unmarshal(rb, &r) != nil {
